@@ -144,6 +144,7 @@ struct Run<'a> {
     coverage: BTreeMap<u32, (BTreeSet<u32>, BTreeSet<u32>)>,
     order_checked: usize,
     aborted_by: BTreeMap<u32, Option<(u64, u64)>>,
+    aborted_tasks: BTreeSet<u64>,
     nested_after_abort_reported: bool,
     reap_slack: bool,
     defer_drops: bool,
@@ -171,7 +172,16 @@ impl Run<'_> {
                 Order::Abort { h, by } => {
                     self.aborted_by.entry(*h).or_insert(*by);
                 }
+                Order::AbortTask { inst } => {
+                    self.aborted_tasks.insert(*inst);
+                }
                 Order::Out { label, at, what } => {
+                    if self.aborted_tasks.contains(&at.0) {
+                        cov.bump("probe:output_after_task_abort_seen");
+                        if self.id == "C06" {
+                            return Err(viol(self.id, "output_after_abort:task", format!("step {si} on {:?}: task {label} produced a {what} after it had been aborted through its join handle", self.sel)));
+                        }
+                    }
                     for (h, by) in &self.aborted_by {
                         let Some((own, nested)) = self.coverage.get(h) else { continue };
                         if *by == Some(*at) {
@@ -703,6 +713,7 @@ pub fn run_scenario_on(scn: &Scenario, sel: HostSel, ck: &Checks, cov: &mut Cov)
         coverage,
         order_checked: 0,
         aborted_by: BTreeMap::new(),
+        aborted_tasks: BTreeSet::new(),
         nested_after_abort_reported: false,
         reap_slack: false,
         defer_drops: scn.defer_drops,
